@@ -40,6 +40,8 @@ pub fn store_and_read(text: &str, cfg: &Value) -> Result<Data, String> {
         let high = cfg["high"].as_bool().unwrap_or(false);
         let xs = |s: &str| if high { biff::XlStr::with_storage(s, true) } else { biff::XlStr::new(s) };
         let mut wb = biff::Workbook::default();
+        // the CODEPAGE record does not govern BIFF8 strings: 1200 (what Excel writes), 1252, absent
+        wb.codepage = match (text.chars().count() + pre) % 3 { 0 => Some(1200), 1 => Some(1252), _ => None };
         let recs = match store {
             "shared" => {
                 let mut v: Vec<biff::XlStr> = (0..pre).map(|i| if i % 2 == 0 { biff::XlStr::new("") } else { biff::XlStr::new("zz") }).collect();
